@@ -321,3 +321,27 @@ def linked_dimension_follows_the_owner_at_the_owners_temperature(T0: float, Tf: 
         assert eq(gap.getDimension("id", cold=True), od)
     except RuntimeError:
         pass
+
+
+@lemma(gen=dict(T0=(20.0, 600.0), T1=(25.0, 700.0), T2=(25.0, 700.0), od=(0.5, 3.0), nd=(0.001, 0.1)))
+def heating_one_component_leaves_a_component_built_from_the_same_composition_table_alone(T0: float, T1: float, T2: float, od: float, nd: float):
+    """two components whose number densities were assigned from ONE composition dict (`c.p.numberDensities = table`,
+    the idiom the docstring of updateNumberDensities suggests): changing the temperature of one rescales ITS densities
+    by the expansion ratio and leaves the other component - and the caller's table - exactly as they were, so the
+    other's mass is conserved and its state still depends only on its own temperature."""
+    assume(nd > 0 and od > 0)
+    if not NATIVE:
+        assume(uf("P", T2) > -100.0)
+    a = solid(basic.Circle, D(od=od, id=0.0, mult=1.0), T0, T1, nd)
+    b = solid(basic.Circle, D(od=od, id=0.0, mult=1.0), T0, T1, nd)
+    table = {"U235": nd, "ZR": 2.0 * nd}
+    a.p.numberDensities = table
+    b.p.numberDensities = table
+    a.setTemperature(T2)
+    r = a.material.getThermalExpansionDensityReduction(T1, T2)
+    assert eq(b.p.numberDensities["U235"], nd) and eq(b.p.numberDensities["ZR"], 2.0 * nd), "the other component is untouched"
+    assert eq(table["U235"], nd) and eq(table["ZR"], 2.0 * nd), "and so is the table the caller holds"
+    assert eq(a.p.numberDensities["U235"], nd * r) and eq(a.p.numberDensities["ZR"], 2.0 * nd * r), "the heated one is rescaled once"
+    rb = b.material.getThermalExpansionDensityReduction(T1, T2)
+    b.setTemperature(T2)
+    assert eq(b.p.numberDensities["U235"], nd * rb), "heated to the same temperature later, the other ends in the same state"
